@@ -20,12 +20,14 @@ pub fn def() -> PropertyDef {
 }
 
 pub fn special_seed(g: &mut Gen, n_chains: usize) -> u64 {
-    match g.range(0, 9) {
+    match g.range(0, 11) {
         0 => 0,
         1 => 1,
         2 => 1u64 << 32,
         3 => 1u64 << 63,
         4 | 5 => u64::MAX - g.range(0, n_chains as u64 + 1),
+        // next to a constant the sources themselves use in seed arithmetic (source-literal dictionary)
+        6 | 7 => crate::core::dict_seed(g, n_chains as u64 + 3),
         _ => g.u64(),
     }
 }
